@@ -122,3 +122,19 @@ Definition channel_mix (depth : nat) (wt : nat -> nat -> Z) (f : nat -> Z) (co :
   zsum (map (fun ci => wt ci co * f ci) (seq 0 depth)).
 Definition diag_plane (depth : nat) : list (list Z) :=
   map (fun ci => map (fun co => diag_weight ci co) (seq 0 depth)) (seq 0 depth).
+
+(* ---------- convert_conv_groups: a grouped convolution as split / convolutions / concatenation ---------- *)
+(* one window position: x is the window content per input channel (already summed over the window taps is not needed -
+   the identity holds tap by tap), w co ci the weight of output channel co for the ci-th channel OF ITS GROUP *)
+Definition grouped_mix (icg ocg : nat) (w : nat -> nat -> Z) (x : nat -> Z) (co : nat) : Z :=
+  zsum (map (fun ci => w co ci * x ((co / ocg) * icg + ci)%nat) (seq 0 icg)).
+(* what the rewrite builds: SPLIT of the input channels, one ordinary convolution per group on its slice of the filters,
+   CONCATENATION of the results *)
+Definition split_part (icg g : nat) (x : nat -> Z) (ci : nat) : Z := x (g * icg + ci)%nat.
+Definition group_conv (icg ocg g : nat) (w : nat -> nat -> Z) (x : nat -> Z) (co' : nat) : Z :=
+  zsum (map (fun ci => w (g * ocg + co')%nat ci * split_part icg g x ci) (seq 0 icg)).
+Definition concat_groups (ocg : nat) (parts : nat -> nat -> Z) (co : nat) : Z := parts (co / ocg)%nat (co mod ocg)%nat.
+(* the slices per group: (first input channel, one past the last, first filter, one past the last) *)
+Definition group_slices (groups ic oc : nat) : list (Z * Z * Z * Z) :=
+  map (fun g => (Z.of_nat (g * (ic / groups)), Z.of_nat ((g + 1) * (ic / groups)),
+                 Z.of_nat (g * (oc / groups)), Z.of_nat ((g + 1) * (oc / groups)))) (seq 0 groups).
